@@ -1,6 +1,6 @@
 (* EntitySpecCorr.v — the correspondence check of C17 extended by the formal quantifier:
    [c17_check] (model = compiler: acceptance both ways, descriptors, error class, client view) and,
-   for single-entity files, "in the quantifier and free of reserved names => the compiler accepted".
+   for every file, "in the (file-level) quantifier and free of reserved names => the compiler accepted".
    This is the empirical side of the acceptance theorem (proofs/EntityAcceptProofs.v proves it for the
    model; here it is checked against the real compiler on every generated declaration).
    Definitions only. *)
@@ -13,9 +13,10 @@ Local Open Scope bool_scope.
 
 Definition admissible (e : entity) : bool := in_quantifier e && reserved_free e.
 
+(* for files with several entities the same with the file-level quantifier (EntitySpec.file_quantifier:
+   each declaration admissible and the documented package scopes distinct over the whole file) *)
 Definition c17_check_adm (c : c17case) : bool :=
   c17_check c &&
   match c with
-  | EC [e] ok _ _ _ _ => implb (admissible e) ok
-  | _ => true
+  | EC es ok _ _ _ _ => implb (file_quantifier es) ok
   end.
